@@ -192,3 +192,17 @@ Theorem C11_reshape_explicit_extents : forall sh target sh', onnx_reshape_shape 
 Proof. exact reshape_explicit_extents. Qed.
 Print Assumptions C11_reshape_law.
 Print Assumptions C11_reshape_explicit_extents.
+
+(* matrix_transpose: the last two axes are swapped, the leading axes keep their place — every rank >= 2 *)
+From ND Require Import Ndx.MatrixTFacts.
+Theorem C11_matrix_transpose_law : forall (A : Type) (t : tensor A) d r, ndx_matrix_transpose t d = GetItem.Done r ->
+  let n := rank t in
+  (2 <= n)%nat /\ length (shape r) = n /\
+  (forall i, (i < n - 2)%nat -> nth i (shape r) 0%nat = nth i (shape t) 0%nat) /\
+  nth (n - 2) (shape r) 0%nat = nth (n - 1) (shape t) 0%nat /\ nth (n - 1) (shape r) 0%nat = nth (n - 2) (shape t) 0%nat /\
+  forall idx, Tensor.in_bounds (shape r) idx ->
+    exists src, get r idx d = get t src d /\ length src = n /\
+      (forall i, (i < n - 2)%nat -> nth i src 0%nat = nth i idx 0%nat) /\
+      nth (n - 1) src 0%nat = nth (n - 2) idx 0%nat /\ nth (n - 2) src 0%nat = nth (n - 1) idx 0%nat.
+Proof. exact @matrix_transpose_spec. Qed.
+Print Assumptions C11_matrix_transpose_law.
